@@ -300,7 +300,7 @@ Proof.
       assert (Ea' : qexact acc') by (unfold qexact, acc'; rewrite mk_mag; exact Ev).
       destruct (Xres Ea' Er') as (M & E & Cn).
       split; [|split; [exact E|]].
-      * rewrite M. unfold mag at 1. unfold acc'. rewrite mk_mag, Vv. cbn [map Qsum fold_right]. ring.
+      * rewrite M. unfold mag at 1. unfold acc'. rewrite mk_mag, Vv. unfold Qsum. cbn [map fold_right]. ring.
       * intros _. apply Cn. unfold qcanon, acc'. rewrite mk_mag. exact Cv.
 Qed.
 
@@ -350,7 +350,7 @@ Proof.
     { unfold qcanon, acc'. rewrite mk_mag. exact Cv. }
     exists res. split; [exact Hres|]. split; [|split; [|split; [exact Cr|split; [exact Er|]]]].
     + rewrite Dres, Dacc'. reflexivity.
-    + rewrite M. unfold mag at 1. unfold acc'. rewrite mk_mag, Vv. cbn [map Qprod fold_right]. ring.
+    + rewrite M. unfold mag at 1. unfold acc'. rewrite mk_mag, Vv. unfold Qprod. cbn [map fold_right]. ring.
     + rewrite Ires. unfold acc'. rewrite mk_isq. cbn [existsb].
       destruct (is_q e), (is_q acc), (existsb is_q l); reflexivity.
 Qed.
@@ -380,10 +380,11 @@ Proof.
     rewrite Zq in H. discriminate. }
   destruct (div_correct (qmag s) (NInt n) (mag s) (inject_Z n) Es eq_refl (Qeq_refl _) (Qeq_refl _) Z)
     as (v & -> & Vv & Cv & Ev).
-  cbn [lift_s]. eexists. split; [reflexivity|]. rewrite mk_mag, mk_isq, orb_false_r.
-  split; [|split; [unfold mag; rewrite mk_mag; exact Vv|split; [unfold qcanon; rewrite mk_mag; exact Cv|
-           split; [unfold qexact; rewrite mk_mag; exact Ev|reflexivity]]]].
-  cbn [qdim]. destruct s as [x|m ds]; cbn [is_q mk qdim] in *.
+  cbn [lift_s is_q]. rewrite orb_false_r.
+  exists (mk (is_q s) v (vsub (qd s) (qd (VN (NInt n))))). split; [reflexivity|].
+  unfold mag, qcanon, qexact. rewrite !mk_mag, mk_isq.
+  split; [|split; [exact Vv|split; [exact Cv|split; [exact Ev|reflexivity]]]].
+  destruct s as [x|m ds]; cbn [is_q mk qdim] in *.
   - exact Ds.
   - subst ds. apply vsub_zero_r. exact Ld.
 Qed.
